@@ -18,8 +18,9 @@ import (
 
 func init() {
 	core.Register(&core.Prop{
-		ID:    "C14",
-		Level: "exploration",
+		ID:          "C14",
+		Level:       "exploration",
+		CaseTimeout: 45e9, // a case of this check takes milliseconds; one that does not end is cut after 45 s
 		Rule: "operations are produced by real datatypes from generator V (Go numerics of every width at boundary values, pointers, structs with/without tags, typed maps and slices, nested containers, hostile valid-UTF-8 strings, batches, transactions, snapshot and error operations) and pushed through every stage: ToModelOperation -> proto.Marshal/Unmarshal -> schema.NewOperationDoc -> bson.Marshal/Unmarshal -> GetOperation -> operations.ModelToOperation -> ToModelOperation; oracle per operation: same id and type, JSON-equivalent body, no stage panics or errors, and OrdaService.TestEncodingOperation echoes an equivalent operation; oracle per history: a replica fed with the fully decoded operations, a replica fed with the wire operations and the issuing replica agree (view, sizes, element reads); service stage (one case in eight): a client of the real service pushes such operations (values of several KiB included), every stored operation document is read back from the MongoDB stand-in and compared with what was sent, and a client that subscribes afterwards plus the server's rebuild read what the issuing client reads; " +
 			"non-trivial = some value of the history is a nested container, a string outside [A-Za-z0-9], or a numeric at a width boundary, and >=5 operations went through the chain; distinct = hash of the call script",
 		Assumptions: []string{
